@@ -39,6 +39,7 @@ def eval_map(fi, inputs, consts=(), call_inline=None, extra_subst=None):
         env.update(extra_subst(S))
 
     def conv(e):
+        e = _drop_clips(e, fi)
         e2 = _inline_calls(e, fi, call_inline) if call_inline else e
         sub = sym.Sym(subst={k: v for k, v in env.items()})
         sub.syms = S.syms
@@ -53,6 +54,11 @@ def eval_map(fi, inputs, consts=(), call_inline=None, extra_subst=None):
                 continue
             if isinstance(s, ast.Assign) and len(s.targets) == 1 and isinstance(s.targets[0], ast.Name):
                 env[s.targets[0].id] = conv(s.value)
+            elif isinstance(s, ast.Assign) and len(s.targets) == 1 and isinstance(s.targets[0], ast.Tuple) and all(isinstance(t_, ast.Name) for t_ in s.targets[0].elts) and not ({x_.id for x_ in ast.walk(s.value) if isinstance(x_, ast.Name)} & (set(inputs) | (set(env) - set(fi.params())))):
+                # `lo, hi = np.sort(<constants of the object>)`: values that do not depend on the mapped variable are
+                # fresh constants of the formula
+                for t_ in s.targets[0].elts:
+                    env[t_.id] = S.symbol(t_.id)
             elif isinstance(s, ast.With):
                 walk(s.body)
             elif isinstance(s, ast.If):
@@ -71,6 +77,28 @@ def eval_map(fi, inputs, consts=(), call_inline=None, extra_subst=None):
     if result is None:
         raise AnalysisError(f"{fi.qual}: no (value, log_j) return found")
     return result, {p: S.syms.get(p) or S.symbol(p) for p in inputs}, S
+
+
+CLIPS = []  # (function, clip call, [bound expressions]) seen while reading the elementary maps
+
+
+def _drop_clips(e, fi):
+    """np.clip(E, lo, hi) is E on the regular domain (the map's own range); the bounds it clips against are judged
+    separately (C07.4: they must not be learned from the live points)."""
+    if not any(isinstance(n, ast.Call) and (call_name(n) or "").split(".")[-1] == "clip" for n in ast.walk(e)):
+        return e
+    import copy as _c
+
+    class T(ast.NodeTransformer):
+        def visit_Call(self, node):
+            self.generic_visit(node)
+            if (call_name(node) or "").split(".")[-1] == "clip" and node.args:
+                bounds = list(node.args[1:]) + [k.value for k in node.keywords if k.arg in ("a_min", "a_max", "min", "max")]
+                CLIPS.append((fi, node, bounds))
+                return node.args[0]
+            return node
+
+    return T().visit(_c.deepcopy(e))
 
 
 def _inline_calls(e, fi, table):
@@ -272,6 +300,7 @@ def run(ctx):
     ctx.floor("C07.3", 18)
 
     # ---- C07.4 formulas: reported log-J vs. the derivative of the map; inverse o forward = id -------
+    del CLIPS[:]
     R = prog.module(RESC)
     scalar_pairs = [("rescale_zero_to_one", "inverse_rescale_zero_to_one"), ("rescale_minus_one_to_one", "inverse_rescale_minus_one_to_one"), ("logit", "sigmoid"), ("log_with_log_jacobian", "exp_with_log_jacobian")]
     for fwd, inv in scalar_pairs:
@@ -386,6 +415,37 @@ def run(ctx):
     ctx.ob("R-ALG", "C07.4", dp.qual, "DeltaPhase: the inverse subtracts exactly the term the forward map adds", len(tb) == 2 and tb[0] == tb[1], f"{tb}")
     nr = prog.cls(REP + ".null:NullReparameterisation")
     ctx.ob("R-ALG", "C07.4", nr.qual, "NullReparameterisation copies the parameters both ways and leaves log_j untouched", len(find_stmt("x_prime[self.prime_parameters] = x[self.parameters]", nr.methods["reparameterise"].node)) == 1 and len(find_stmt("x[self.parameters] = x_prime[self.prime_parameters]", nr.methods["inverse_reparameterise"].node)) == 1, "")
+    # a clip inside an elementary map is the identity only if its bounds enclose every legal input: bounds that the class
+    # re-learns from the live points (`update_bounds(x)` stores min / max of the training data into self.bounds) do not -
+    # a prior-box point outside the current data range would come back moved onto the edge (inverse o forward != id)
+    DATA_PARAMS = {"x", "x_prime", "live_points", "samples", "points"}
+    for cf_, cn_, cb_ in list(CLIPS):
+        attrs_ = {n_.attr for b_ in cb_ for n_ in ast.walk(b_) if isinstance(n_, ast.Attribute) and isinstance(n_.value, ast.Name) and n_.value.id == "self"}
+        # locals of the map that name such attributes
+        loc_ = {s_.targets[0].id if isinstance(s_.targets[0], ast.Name) else None: s_.value for s_ in walk_no_nested(cf_.node) if isinstance(s_, ast.Assign) and len(s_.targets) == 1}
+        for s_ in walk_no_nested(cf_.node):
+            if isinstance(s_, ast.Assign) and len(s_.targets) == 1 and isinstance(s_.targets[0], ast.Tuple) and any(isinstance(t_, ast.Name) and any(isinstance(n_, ast.Name) and n_.id == t_.id for b_ in cb_ for n_ in ast.walk(b_)) for t_ in s_.targets[0].elts):
+                attrs_ |= {n_.attr for n_ in ast.walk(s_.value) if isinstance(n_, ast.Attribute) and isinstance(n_.value, ast.Name) and n_.value.id == "self"}
+        for b_ in cb_:
+            for n_ in ast.walk(b_):
+                if isinstance(n_, ast.Name) and loc_.get(n_.id) is not None:
+                    attrs_ |= {m_.attr for m_ in ast.walk(loc_[n_.id]) if isinstance(m_, ast.Attribute) and isinstance(m_.value, ast.Name) and m_.value.id == "self"}
+        learned_ = []
+        if cf_.cls is not None:
+            for k_ in [cf_.cls] + prog.subclasses(cf_.cls) + prog.mro(cf_.cls):
+                for m_ in k_.methods.values():
+                    ps_ = set(m_.params()) & DATA_PARAMS
+                    if not ps_:
+                        continue
+                    for s_ in walk_no_nested(m_.node):
+                        if isinstance(s_, (ast.Assign, ast.AugAssign)):
+                            for t_ in (s_.targets if isinstance(s_, ast.Assign) else [s_.target]):
+                                b0_ = t_
+                                while isinstance(b0_, ast.Subscript):
+                                    b0_ = b0_.value
+                                if isinstance(b0_, ast.Attribute) and isinstance(b0_.value, ast.Name) and b0_.value.id == "self" and b0_.attr in attrs_ and any(isinstance(x_, ast.Name) and x_.id in ps_ for x_ in ast.walk(s_.value)):
+                                    learned_.append(f"self.{b0_.attr} (stored from `{sorted(ps_)[0]}` in {m_.short})")
+        ctx.ob("R-ALG", "C07.4", cf_, "a clip inside an elementary map uses bounds that are not re-learned from the live points (else it is not the identity on the prior box)", not learned_, f"`{src(cn_)[:70]}`" + (f": {sorted(set(learned_))[0]}" if learned_ else ""), node=cn_)
     ctx.floor("C07.4", 30)
 
     # ---- C07.5 mirror order ---------------------------------------------------------------------
@@ -746,6 +806,7 @@ _RS = "nessai/reparameterisations/rescale.py"
 _AN = "nessai/reparameterisations/angle.py"
 _GW = "nessai/gw/utils.py"
 MUTANTS = [
+    {"id": "inverse-clipped-to-learned-bounds", "file": "nessai/reparameterisations/rescale.py", "old": "        ) / self._rescale_factor[n] + self.bounds[n][0]\n\n        log_j = np.log(self.bounds[n][1] - self.bounds[n][0]) - np.log(", "new": "        ) / self._rescale_factor[n] + self.bounds[n][0]\n        out = np.clip(out, self.bounds[n][0], self.bounds[n][1])\n\n        log_j = np.log(self.bounds[n][1] - self.bounds[n][0]) - np.log(", "expect": "a clip inside an elementary map"},
     {"id": "no-edge-bounds-from-rescale-bounds", "file": "nessai/utils/rescaling.py", "old": "    elif not invert or invert is None:\n        return 2 * lower - 1, 2 * upper - 1\n", "new": "    elif not invert or invert is None:\n        return lower, upper\n", "expect": "returns the image of the prior box"},
     {"id": "augment-fields-not-carried-back", "file": "nessai/proposal/augmented.py", "old": "        self._base_inverse_rescale = self.inverse_rescale\n        self.inverse_rescale = self._augmented_inverse_rescale\n", "new": "", "expect": "also filled by the (effective) inverse_rescale"},
     {"id": "missing-inverse", "file": "nessai/gw/reparameterisations.py", "old": "    def inverse_reparameterise(self, x, x_prime, log_j, **kwargs):", "new": "    def _inverse(self, x, x_prime, log_j, **kwargs):", "expect": "DeltaPhaseReparameterisation.inverse_reparameterise is implemented"},
